@@ -170,6 +170,9 @@ def common_state(ctx, t):
     t = _sub(ctx, 'R2', r'(\w+\.update_next_node)\((?!st,)', r'\1(st, ', t)
     t = _sub(ctx, 'R2', r'(\w+)\.clear\(self\)', r'\1.clear(self, st)', t)
     t = _sub(ctx, 'R2', r'Segment::from_offset\(self, ', 'Segment::from_offset(self, ', t)
+    # R21 raw zero-fill of arena bytes through the base pointer -> the shim's write_bytes primitive
+    A = r'([^(),]*(?:\([^()]*\))?[^(),]*?)'
+    t = _sub(ctx, 'R21', r'(?:core::)?ptr::write_bytes\(\s*self\.ptr\.add\(' + A + r'\),\s*' + A + r',\s*' + A + r',?\s*\)', r'st.write_bytes(\1, \2, \3)', t)
     # R11 paths
     t = re.sub(r'(?<![:\w])mem::(size_of|align_of|needs_drop)', r'core::mem::\1', t)
     return t
